@@ -299,6 +299,9 @@ func vSortStable(ops []vOp) []vOp {
 func vSymPre(b *baseStore, p int, valLen int) vState {
 	var st vState
 	for i, k := range vKeys {
+		if sym.Param("PRE", 1) == 0 {
+			break // empty pre-state
+		}
 		if sym.Choice("pre-present", 2) == 0 {
 			continue
 		}
